@@ -161,7 +161,7 @@ def search_pkg_egg(stc: int, magic_ok: bool, tc: int, has_py: bool, di: int, off
         if di == j:
             dt = DOS_POOL[j]
     dd, dtm = _dos(*dt)
-    py_time = _epoch(dt)
+    py_time = int(_epoch(dt))
     mtime = py_time + off if has_py else tc + off
     files, datas = {}, {}
     if stc == 1:
@@ -249,7 +249,8 @@ def real_pyc(keep_py: bool, off: int, py_off: int, legacy: bool) -> bool:
         import py_compile
         import shutil
         import tempfile
-        importlib.reload(pyfile)
+        importlib.reload(pyfile)                # undo the stubs other conditions installed in this process ...
+        vars(pyfile).pop('open', None)          # ... including the module-level `open` a reload does not remove
         d = tempfile.mkdtemp(prefix='verif-x10-')
         try:
             src = os.path.join(d, 'M-MIB.py')
